@@ -141,8 +141,8 @@ SCALAR_TEXT = {'empty': '', 'word': 'a', 'words': 'a b', 'multiline': 'a\nb', 'l
 ANCHOR = {'': [None], 'a1': ['a1', 'x-1', 'A_b'], 'a2': ['a2', 'y', 'Z9'], 'bad': ['a b', '\xe9', 'a*'], 'empty': ['']}
 TAG = {'': [None], '!': ['!'], 'local': ['!f', '!foo', '!a/b'], 'core': ['tag:yaml.org,2002:s', 'tag:yaml.org,2002:str', 'tag:yaml.org,2002:int'],
        'uri': ['t:\xe9', 'tag:\xe9.org,2000:x y', 't:\u4e2d<'], 'hdl': ['t:h1:x', 't:h1:x', 't:h1:x'], 'hu': ['t:\xe9:x', 't:\xe9:x', 't:\xe9:x'],
-       'empty': ['']}
-TAGS = {'': None, 'h1': {'!h1!': 't:h1:'}, 'hu': {'!u!': 't:\xe9:'}, 'badh': {'!h1': 'x'}, 'nop': {'!h1!': ''}}
+       'st': ['t:s:x'] * 3, 'bt': ['t:b:x'] * 3, 'empty': ['']}
+TAGS = {'': None, 'hs': {'!!': 't:s:'}, 'hb': {'!': 't:b:'}, 'h1': {'!h1!': 't:h1:'}, 'hu': {'!u!': 't:\xe9:'}, 'badh': {'!h1': 'x'}, 'nop': {'!h1!': ''}}
 VERSION = {'': None, '1.1': (1, 1), '1.2': (1, 2), '2.0': (2, 0)}
 LBNAME = {(10,): '\n', (13,): '\r', (13, 10): '\r\n'}
 
